@@ -271,7 +271,7 @@ def run(ctx):
             elif RT_MAP_ENUM in o["rterr"]:
                 ctx.violation("runtime-rejects-map-enum-first-value-nonzero",
                               "protodesc.NewFile rejects the compiled file: " + o["rterr"], replay_of(c, {"runtime_error": o["rterr"]}))
-            elif ("may only use open enums" in o["rterr"] or "open semantics" in o["rterr"]) and \
+            elif ("open enum" in o["rterr"] or "open semantics" in o["rterr"]) and \
                     (any(e["k"] == "enum" and not et_known(e["in"]) for e in elems)
                      or any("ENUM_TYPE_UNKNOWN" in t for t in c["files"].values())):
                 ctx.violation("is-closed-enum-type-unknown", "an enum whose enum_type resolves to ENUM_TYPE_UNKNOWN is open for the linker and closed "
